@@ -21,7 +21,7 @@ OVERRIDES = K.OVERRIDES
 
 
 def caps(tier):
-    return dict(rest=42, store=3, wide=50) if tier == "quick" else dict(rest=52, store=3, wide=62)
+    return dict(rest=42, store=3, wide=50, rw=42) if tier == "quick" else dict(rest=52, store=3, wide=54, rw=42)
 
 
 def py_strip(data):
@@ -122,7 +122,7 @@ def make_queries(tier):
 
     def q_png_remove_after_write(E):
         """removing the manifest from an embedded asset gives the same bytes as removing it from the original (two handler runs)"""
-        data, rest = K.png_input(E, C["rest"])
+        data, rest = K.png_input(E, C["rw"])
         store = E.str("store", C["store"], "bytes")
         if E.mode != "symbolic":
             w = E.native("png_write", [_j(data), _j(store)])
@@ -131,8 +131,9 @@ def make_queries(tier):
             E.prove("remove(write(x, s)) == remove(x)", z3.BoolVal((not w["ok"]) or (a["ok"] and b["ok"] and a["out"] == b["out"])))
             return
         I = E.I
-        I.loop_bound = NCH + 3
-        valid, st, ncabx = K.valid_png(data.e, NCH)
+        RCH = C["rw"] // 12
+        I.loop_bound = RCH + 3
+        valid, st, ncabx = K.valid_png(data.e, RCH)
         E.assume(valid)
         wr, out = K.run_write(E, data, store)
         rm1, o1 = K.run_remove(E, out)
